@@ -233,12 +233,10 @@ def %(name)s(rest: List[Tuple[int, int]]) -> bool:
                             continue                # never acquires a gradient (checked by _consistent)
                         if r is root or r.is_leaf():
                             r.has_grad = True
-                        elif r.retain or (retain_on and r.born_retain):
-                            r.has_grad = True       # marked, or computed and differentiated under retain_grads
-                        elif (not retain_on) and (not r.born_retain):
-                            r.has_grad = False      # neither: must release
+                        elif r.retain or r.born_retain:
+                            r.has_grad = True       # marked with retain_grad(), or computed under retain_grads
                         else:
-                            r.has_grad = None       # computed under / differentiated under only: not asserted (see DESIGN)
+                            r.has_grad = False      # neither: released, wherever backward was called
                 except RuntimeError:
                     ok = ok and not root.req
         elif op == 10:           # numpy() refuses tensors that require grad
@@ -428,6 +426,64 @@ def %(name)s_twin(opi: int, f0: bool, f1: bool, f2: bool, grad_on: bool) -> bool
     """
     return True
 '''
+
+H4 = r'''
+import contextlib
+import numpy as np
+from typing import List, Tuple
+import synapgrad
+KIND = %(kind)d
+
+
+def _ctx(c):
+    # 0 nothing, 1 retain_grads, 2 no_grad nested in retain_grads is not a computing context for tracked results: only 0/1 here
+    return synapgrad.retain_grads() if c else contextlib.nullcontext()
+
+
+def %(name)s(cy: bool, my: bool, cw: bool, mw: bool, cb: bool, deep: bool, again: bool) -> bool:
+    """
+    post: __return__ == True
+    """
+    # leaf x -> y = exp(x) -> w = y * x -> (deep: root = exp(w), else root = w); every intermediate result is computed either
+    # inside (c*) or outside a retain_grads block and is marked with retain_grad() (m*) or not; backward is called inside (cb)
+    # or outside a block.  Kept after backward: leaves, the root, and intermediates that were marked or computed under
+    # retain_grads - nothing else, wherever backward was called.
+    _PATHS[0] += 1
+    _reset_modes()
+    one = synapgrad.Tensor(np.ones((2,), dtype=np.float32))
+    x = synapgrad.Tensor(np.ones((2,), dtype=np.float32) * 0.5, requires_grad=True)
+    with _ctx(cy):
+        y = x.exp() if KIND == 0 else x * 2.0
+    if my:
+        y.retain_grad()
+    with _ctx(cw):
+        w = y * x if KIND == 0 else y + x
+    if mw:
+        w.retain_grad()
+    root = w.exp() if deep else w
+    with _ctx(cb):
+        root.backward(one)
+    ok = _g(x) is not None and _g(root) is not None
+    ok = ok and ((_g(y) is not None) == (cy or my))
+    if deep:
+        ok = ok and ((_g(w) is not None) == (cw or mw))
+    if again and ok:
+        # a second call from the same root in the opposite setting changes nothing about who keeps a gradient
+        with _ctx(not cb):
+            root.backward(one)
+        ok = ok and ((_g(y) is not None) == (cy or my)) and _g(x) is not None
+        if deep:
+            ok = ok and ((_g(w) is not None) == (cw or mw))
+    return ok and _mode_is((True, False))
+
+
+def %(name)s_twin(cy: bool, my: bool, cw: bool, mw: bool, cb: bool, deep: bool, again: bool) -> bool:
+    """
+    post: False
+    """
+    return True
+'''
+
 N_OPS3 = H3.count('\n    ("')
 
 
@@ -445,6 +501,8 @@ def partitions(tier):
     step = 8 if tier == "quick" else 4
     for lo in range(0, N_OPS3, step):
         parts.append(("h3", (lo, min(N_OPS3, lo + step)), 0))
+    parts.append(("h4", (0, 0), 0))
+    parts.append(("h4", (1, 0), 0))
     return parts
 
 
@@ -457,6 +515,8 @@ def main(tier, seed):
         name = "%s_p%d" % (kind, i)
         if kind == "h3":
             src = H3 % {"lo": first[0], "hi": first[1], "name": name}
+        elif kind == "h4":
+            src = H4 % {"kind": first[0], "name": name}
         else:
             tmpl = H1 if kind == "h1" else H2
             src = tmpl % {"first": first, "maxlen": maxlen, "name": name}
@@ -488,6 +548,9 @@ def main(tier, seed):
               "4 with retain_grads, 5 exit, 6 exit by exception, 7 probe, 8 re-enter an object that is already entered; first action fixed per partition + <= %d symbolic" % (3 if tier == "quick" else 4),
         "h2": "flags/backward: ops 0-2 contexts, 3 float leaf, 4 int leaf, 5 unary, 6 binary, 7 set requires_grad, "
               "8 retain_grad, 9 backward, 10 numpy(), 11 detach, 12 float leaf from int data via dtype=, 13 computed leaf flagged afterwards; first action fixed per partition + <= %d symbolic" % (2 if tier == "quick" else 3),
+        "h4": "retention of intermediate gradients: chain leaf -> y -> w -> (root), each intermediate computed inside/outside retain_grads and "
+              "marked with retain_grad() or not, backward inside/outside a block, optionally a second backward in the opposite setting "
+              "(7 symbolic booleans, 2 operation pairs)",
         "h3": "requires_grad propagation per operation: %d operations of the public API (operator, reflected, functional and layer forms, "
               "1-3 operands, multi-output unbind), the requires_grad flag of every operand and the gradient mode symbolic; result flag, "
               "grad_fn, is_leaf, refusal of backward and which operands receive a gradient are asserted" % N_OPS3})
@@ -562,8 +625,8 @@ def finish(prop, tier, seed, results, t0, bounds):
     }
     ev = {"property_id": prop, "tier": tier, "seed": seed, "level": "model_checking", "coverage": cov,
           "assumptions": ["history length bounded as stated; only 'Confirmed over all paths' counts as discharged",
-                          "retention of intermediate gradients is asserted when the tensor is computed AND differentiated under "
-                          "retain_grads (must keep) or neither (must release); the two mixed cases are not asserted"],
+                          "retention of intermediate gradients: kept iff the tensor was marked with retain_grad() or computed "
+                          "under retain_grads, wherever backward is called (the statement's wording)"],
           "wall_s": round(time.time() - t0, 2), "violations": n_viol}
     os.makedirs(os.path.join(runner.OUT, "evidence"), exist_ok=True)
     with open(os.path.join(runner.OUT, "evidence", prop + ".json"), "w") as f:
